@@ -26,11 +26,28 @@ func TestMain(m *testing.M) {
 
 // bubble runs f in a fresh synctest bubble and returns the recovered panic
 // value of the bubble machinery (deadlock, leaked goroutines), if any.
+//
+// synctest.Test calls t.FailNow (runtime.Goexit) when the race detector has
+// reported something during the bubble, so it runs on a goroutine of its own;
+// that case is returned as errRaceReported.
 func bubble(t *testing.T, f func()) (pv any) {
-	defer func() { pv = recover() }()
-	synctest.Test(t, func(t *testing.T) { f() })
-	return nil
+	done := make(chan struct{})
+	go func() {
+		defer close(done)
+		normal := false
+		defer func() {
+			if pv = recover(); pv == nil && !normal {
+				pv = errRaceReported
+			}
+		}()
+		synctest.Test(t, func(t *testing.T) { f() })
+		normal = true
+	}()
+	<-done
+	return pv
 }
+
+var errRaceReported = fmt.Errorf("race detector reported a data race during this run")
 
 var scenarios = map[string]func(t *testing.T, cfg *simrt.Config) simrt.RunFn{}
 
